@@ -29,7 +29,8 @@ Proof.
     cbn [app]. apply do_line_bare; assumption. }
   rewrite L2. cbn [a_rr a_rd a_xr a_xd a_start app].
   unfold assemble. cbn [a_rr a_rd a_xr a_xd a_start List.length isnil negb orb Z.of_nat Pos.of_succ_nat Z.ltb Z.compare Pos.compare Pos.compare_cont].
-  unfold parse_rule, single. rewrite Hi. fold v. unfold v. rewrite (spell_value_parse c k Hk). reflexivity.
+  unfold parse_rule, single. rewrite Hi. fold v. unfold v. rewrite (spell_value_parse c k Hk).
+  rewrite (wf_kw_freq k Hk). reflexivity.
 Qed.
 
 (* characters of folded lines *)
@@ -79,13 +80,14 @@ Proof.
   { apply upper_id. eapply Forall_impl; [|exact Ht]. intros ch Hch'. apply ftxtc_props, Hch'. }
   assert (Has : forallb is_ascii s = true).
   { apply forallb_forall. rewrite Forall_forall in Ht. intros ch Hin. apply ftxtc_props, Ht, Hin. }
-  unfold parse_rfc. rewrite Has. cbn [negb]. rewrite Hup.
-  unfold parse_upper. rewrite Hf, Hc, Hu. cbn [orb].
+  unfold parse_rfc. rewrite Has. cbn [negb].
   assert (Hst : isnil (strip s) = false).
   { unfold s. cbn [map join]. destruct l1 as [|c0 t1] eqn:E1; [congruence|].
     rewrite fold_line_head. cbn [app]. apply strip_nonnil.
     inversion H1 as [|? ? Hc0 _]; subst. apply linec_props, Hc0. }
-  rewrite Hst. unfold s. rewrite (unfold_fold_lines ps [l1; l2] Hok).
+  rewrite Hst. rewrite Hc, Hu. cbn [orb]. rewrite Hup. unfold s. rewrite (unfold_fold_lines ps [l1; l2] Hok).
+  cbn [map]. rewrite (txt_upper l1 (linec_txtc l1 H1)), (txt_upper l2 (linec_txtc l2 H2)).
+  unfold parse_lines. rewrite Hf, Hc. cbn [orb].
   unfold shortcut. cbn [negb List.length andb Z.of_nat Pos.of_succ_nat Z.eqb Pos.eqb Pos.succ].
   apply general_two; assumption.
 Qed.
@@ -98,11 +100,12 @@ Theorem spelling_invariance ev o c d k : wf_kw k = true ->
   valid_dt d = true -> dus d = 0 -> (dtz d = 0 \/ dtz d = 1) -> c_inline c <> 0 ->
   o_forceset o = false -> o_compatible o = false -> o_ignoretz o = false -> o_unfold o = true ->
   let folded := join [10] (map (fold_line (c_folds c) 0) (spell_lines c [] (Some d) k)) in
-  tzid_findall folded = [] -> tzid_findall (case_text (c_case c) (c_case c) folded) = [] ->
+  tzid_findall (join [10] (get_lines true (case_text (c_case c) (c_case c) folded))) =
+  tzid_findall (join [10] (get_lines true folded)) ->
   parse_rfc ev o (spell c [] (Some d) k) = single ev (o_cache o) (Some d) k.
 Proof.
-  intros Hk Hv Hus Htz Hin Hf Hc Hi Hu folded T1 T2. unfold spell. fold folded.
-  rewrite (RstrThmErr.spelling_case ev o (c_case c) folded T1 T2).
+  intros Hk Hv Hus Htz Hin Hf Hc Hi Hu folded T1. unfold spell. fold folded.
+  rewrite (RstrThmErr.spelling_case ev o (c_case c) folded); [|rewrite Hu; exact T1].
   unfold folded, spell_lines. replace (c_inline c =? 0) with false by lia. cbn [app].
   apply rrulestr_folded; assumption.
 Qed.
@@ -112,5 +115,6 @@ Example ex_spelling_invariance :
   let d := mkdt 1997 9 2 9 0 0 0 1 in
   let k := RstrThmFinal.kw_ex in
   let folded := join [10] (map (fold_line (c_folds c) 0) (spell_lines c [] (Some d) k)) in
-  tzid_findall folded = [] /\ tzid_findall (case_text (c_case c) (c_case c) folded) = [] /\ c_inline c <> 0.
-Proof. vm_compute. repeat split; discriminate. Qed.
+  tzid_findall (join [10] (get_lines true (case_text (c_case c) (c_case c) folded))) =
+  tzid_findall (join [10] (get_lines true folded)) /\ c_inline c <> 0.
+Proof. vm_compute. split; [reflexivity|discriminate]. Qed.
